@@ -37,12 +37,13 @@ class FnSummary:
     pass
 
 
-def summarize_fn(ctx, fn, specialise=None, assume=None, split=frozenset(), ranges=None, pre=None):
+def summarize_fn(ctx, fn, specialise=None, assume=None, split=frozenset(), ranges=None, pre=None, record_arith=False):
     """Run an instruction helper `fn(vm, args...)` on an abstract machine with atom arguments.
     specialise: {arg_name: int} fixes an argument to a constant."""
     P = ctx.program
     sig = P.sigs.get(("lib", fn["name"]))
     I = Interp(P, assume=assume, split=split)
+    I.record_arith = record_arith
     st = machine_state(I, P)
     args = []
     slots = {}
